@@ -689,7 +689,7 @@ pub fn run(ctx: &Ctx, which: Which) -> Report {
 fn pool_stress(ctx: &Ctx, which: Which, vocabulary: &[String], report: &mut Report) {
     let table = ClassTable::get();
     let threads = crate::util::threads().max(2);
-    let per_thread: u64 = ctx.tier.pick(600_000, 6_000_000);
+    let per_thread: u64 = ctx.tier.pick(3_000_000, 20_000_000);
     let mut total = 0u64;
     for (pi, pool_size) in [2usize, 16, 256, 4096, 65_536].iter().enumerate() {
         let mut rng = Rng::derive(ctx.seed, "c01-pool", pi as u64);
